@@ -137,6 +137,11 @@ def encExceptFrame : Except PyErr Frame → Json
   | .ok f => Json.mkObj [("ok", encFrame f)]
   | .error e => Json.mkObj [("err", Json.str (encErr e))]
 
+/-- one `filter_pair` answer: the boolean, or `{"err": …}` when the call raises (non-string value) -/
+def encExceptBool : Except PyErr Bool → Json
+  | .ok b => Json.bool b
+  | .error e => Json.mkObj [("err", Json.str (encErr e))]
+
 /-- tokenization table: {"set": {string: [tokens]}, "bag": {…}} -/
 def decToks (j : Json) : TokFn := fun mode s =>
   let tbl := fldD j (if mode then "set" else "bag") Json.null
@@ -302,11 +307,11 @@ def handle (j : Json) : D Json := do
     if kind == "overlap" then
       let f : OverlapFilterObj := { overlapSize := ← decPyV (← fld j "overlap_size"), compOp := strFD j "comp_op" ">=",
                                     allowMissing := boolFD j "allow_missing" false }
-      pure (Json.mkObj [("ok", Json.arr (pairs.map (fun (l, r) => Json.bool (overlapFilterPair f (toks mode) l r))).toArray)])
+      pure (Json.mkObj [("ok", Json.arr (pairs.map (fun (l, r) => encExceptBool (overlapFilterPairPy f (toks mode) l r))).toArray)])
     else
       let k ← filterKindOf kind
       let f ← decFilterObj j
-      pure (Json.mkObj [("ok", Json.arr (pairs.map (fun (l, r) => Json.bool (filterPair k f (toks mode) l r))).toArray)])
+      pure (Json.mkObj [("ok", Json.arr (pairs.map (fun (l, r) => encExceptBool (filterPairPy k f (toks mode) l r))).toArray)])
   | "suffix_internals" =>
     let f ← decFilterObj j
     let l ← decNatList (← fld j "l")
@@ -390,12 +395,12 @@ def handle (j : Json) : D Json := do
     if kind == "overlap" then
       match mkOverlapFilter (← decPyV (← fld j "overlap_size")) (strFD j "comp_op" ">=") (boolFD j "allow_missing" false) t with
       | .error e => pure (Json.mkObj [("err", Json.str (encErr e)), ("stage", Json.str "ctor")])
-      | .ok f => pure (encExceptFrame (filterCandset ca (overlapFilterPair f (toks t.returnSet)) cpu))
+      | .ok f => pure (encExceptFrame (filterCandset ca (overlapFilterPairPy f (toks t.returnSet)) cpu))
     else
       let k ← filterKindOf kind
       match mkFilter (← strF j "measure") (← decPyV (← fld j "threshold")) (boolFD j "allow_empty" true) (boolFD j "allow_missing" false) t with
       | .error e => pure (Json.mkObj [("err", Json.str (encErr e)), ("stage", Json.str "ctor")])
-      | .ok f => pure (encExceptFrame (filterCandset ca (filterPair k f (toks t.returnSet)) cpu))
+      | .ok f => pure (encExceptFrame (filterCandset ca (filterPairPy k f (toks t.returnSet)) cpu))
   | "apply_matcher" =>
     let t ← decTokObj (fldD j "tokenizer" Json.null)
     let toks := decToks (fldD j "toks" Json.null)
